@@ -200,11 +200,22 @@ def run_one(rec, A, L, kind, tier, seed):
                     if not torch.equal(X, Xc):
                         rec.violation("ism:input_modified", case)
                         X = Xc.clone()
+                # raw outputs are the model's outputs for every mutant whatever `target` says (the target only selects what is attributed)
+                if kind != "tuple":
+                    for target in (0, -1, slice(0, 2)):
+                        st, val = call(saturation_mutagenesis, model, X, args=args, start=s, end=e, batch_size=7, raw_outputs=True, target=target, device="cpu")
+                        rec.case(1, nontriv)
+                        c3 = dict(fn="saturation_mutagenesis", A=A, L=L, N=N, start=s, end=e, kind=kind, args=use_args, raw_outputs=True,
+                                  target=repr(target), seqs=codes.tolist())
+                        if st != "ok":
+                            rec.violation("ism:raw_raises:with_target", c3, observed=val)
+                        elif tuple(val[1].shape) != tuple(yh_ref[0].shape) or not torch.equal(val[1].double(), yh_ref[0]) or not torch.equal(val[0].double(), y0_ref[0]):
+                            rec.violation("ism:raw_outputs_depend_on_target", c3, expected=list(yh_ref[0].shape), observed=list(val[1].shape))
                 # attribution output (single-tensor models only), boundary batch size only
                 if kind == "tuple":
                     continue
                 T = y0_ref[0].shape[1]
-                for target in (None, 0, T - 1, slice(0, 2)):
+                for target in (None, 0, T - 1, slice(0, 2), -1, -T, slice(-2, None), slice(1, None)):
                     for hyp in (False, True):
                         case = dict(fn="saturation_mutagenesis", A=A, L=L, N=N, start=s, end=e, kind=kind, args=use_args,
                                     target=repr(target), hypothetical=hyp, seqs=codes.tolist())
@@ -217,7 +228,7 @@ def run_one(rec, A, L, kind, tier, seed):
                         if target is None:
                             sel = list(range(T))
                         elif isinstance(target, int):
-                            sel = [target]
+                            sel = [target % T]                  # targets counted from the end denote the same output as in indexing
                         else:
                             sel = list(range(T))[target]
                         exp = numpy.zeros((N, A, Wn))
